@@ -360,6 +360,10 @@ impl Target {
                     }
                 };
 
+                // The constant describes the assigned expression: it is the variable's value
+                // only when the whole variable is assigned, not one of its paths.
+                let value = if path.is_root() { value } else { None };
+
                 let details = Details { type_def, value };
                 state.local.insert_variable(ident.clone(), details);
             }
